@@ -16,6 +16,7 @@ Record code_cfg := {
   cc_pipeline : list string;         (* stage calls reached from UpdateExchangeRates, in order, helpers inlined *)
   cc_clear_votes_guards : nat;       (* non-error path conditions on the call of clearVotesAndPrevotes (early returns / ifs before it) *)
   cc_update_gate : list string;      (* EndBlocker: period gates on the path to UpdateExchangeRates *)
+  cc_endblock_order : list string;   (* EndBlocker: the tally runs before the slash-window processing *)
   cc_rounding : rounding;            (* method applied to VoteThreshold.MulInt64(totalBondedPower) *)
   cc_threshold_from_param : bool;
   cc_skips_ineligible : bool;        (* groupVotesByPair: a vote is appended only if the voter is in the performance map *)
@@ -52,6 +53,7 @@ Fixpoint strs_eqb (a b : list string) : bool :=
 (** the parts of the code shape for which the model has no variant: they must be exactly as modelled *)
 Definition structural_ok (c : code_cfg) : bool :=
   strs_eqb (cc_pipeline c) expected_pipeline && Nat.eqb (cc_clear_votes_guards c) 0 && strs_eqb (cc_update_gate c) ["+VotePeriod"] &&
+  strs_eqb (cc_endblock_order c) ["UpdateExchangeRates"; "SlashAndResetMissCounters"] &&
   (match cc_rounding c with RoundInt => true | _ => false end) && cc_threshold_from_param c &&
   cc_skips_ineligible c && cc_power_per_tuple c && cc_median_sorts c &&
   (match cc_median_cmp c with CmpGe => true | _ => false end) && cc_median_half c &&
